@@ -68,7 +68,13 @@ func (p *Parser) parseInsertStatement() (ast.Statement, error) {
 		}
 		qe, ok := stmt.(ast.QueryExpression)
 		if !ok {
-			return nil, fmt.Errorf("expected SELECT or set operation in INSERT ... SELECT, got %T: %w", stmt, ErrUnexpectedStatement)
+			return nil, goerrors.WrapError(
+				goerrors.ErrCodeInvalidSyntax,
+				fmt.Sprintf("expected SELECT or set operation in INSERT ... SELECT, got %T", stmt),
+				p.currentLocation(),
+				"",
+				ErrUnexpectedStatement,
+			)
 		}
 		query = qe
 	case p.isType(models.TokenTypeValues):
